@@ -14,7 +14,9 @@ package main
 //
 // Sections: IR, printers, AST->IR conversion and structural diff; environment,
 // statement positions and the per-tree oracle; exhaustive enumeration and the
-// random generator; literal spellings; plan and case dispatch.
+// random generator; literal spellings; plan and case dispatch. c03_r6.go: rejected
+// spellings through vm.Execute. c03_r7.go: literals evaluated again (phase
+// reeval), every executed tree run again, numerals of more than 800 characters.
 
 import (
 	"context"
@@ -1006,9 +1008,13 @@ func c03CheckTree(c *wk.Case, t *c03Node, posIdx int, exec bool, origin string) 
 		c.Sample(map[string]interface{}{"position": pos.name, "tree": want.canon(), "min": sp[0].prog, "full": sp[1].src})
 	}
 	dumps := make([]string, len(sp))
+	var root0 ast.Stmt // the parsed program of the minimal spelling
 	allParsed := true
 	for i, s := range sp {
 		root, err, o := ank.Parse(s.prog)
+		if i == 0 {
+			root0 = root
+		}
 		c.Events(1)
 		if o.Panicked {
 			c.Violation("parse-panic:"+s.name+":"+o.PanicSig, "parser panicked on "+s.name+" spelling: "+o.PanicVal, input)
@@ -1126,6 +1132,11 @@ func c03CheckTree(c *wk.Case, t *c03Node, posIdx int, exec bool, origin string) 
 			c.Violation("value:rootparen:"+pos.name+":"+t.label(), "the expression and the same expression in parentheses evaluate differently in this statement position", in)
 			return
 		}
+	}
+	// the tree of the minimal spelling evaluated again (twice) and dumped again: it denotes the same value
+	// every time and still spells its source (c03_r7.go)
+	if !c03RerunTree(c, root0, dumps[0], r1, cls, pos.name, t.label(), input) {
+		return
 	}
 	if strings.HasPrefix(r1, "value") {
 		c.Tag("exec:both-value")
@@ -2134,9 +2145,11 @@ func c03LiteralCase(c *wk.Case, per int) {
 			c03Unterminated(c, r, s)
 			c03InvalidUTF8(c, r, s)
 		}
+		c03LongNumerals(c, r, 16, true) // float numerals of 801..3000 characters (c03_r7.go)
 		return
 	}
 	c03EscSweep(c, c.Index-1, 32)
+	c03LongNumerals(c, r, 3, false)
 	for k := 0; k < per; k++ {
 		ctx := r.Intn(len(c03LitCtx))
 		switch x := r.Intn(20); {
@@ -2424,9 +2437,9 @@ func init() {
 		Plan: func(tier string) fw.Plan {
 			nbrCases, k2, k3 := c03EnumCounts()
 			enumCases := nbrCases + (k2+k3+c03EnumBatch-1)/c03EnumBatch
-			trees, lits := 320, 200
+			trees, lits, reeval := 320, 200, 80
 			if tier == "thorough" {
-				trees, lits = 4000, 3000
+				trees, lits, reeval = 4000, 3000, 1500
 			}
 			return fw.Plan{
 				Level: "exploration",
@@ -2441,7 +2454,10 @@ func init() {
 					"string values also draw non-ASCII code points from the whole range (half of them with the low byte of a lexically meaningful ASCII character), written as themselves and after an escaped backslash; " +
 					"undefined escapes (complete every run, one 256-code-point block per case from case 1): a backslash before every code point of U+0080..U+307F and of " + strconv.Itoa(len(c03EscBlocks)-0x30) + " further BMP/astral blocks, plus 32 drawn code points per case, in both quote styles with rotating defined surroundings: the literal must denote only characters that were written (X kept, backslash and X kept, both dropped, or *parser.Error) and the choice must be the same for every X (compared with U+00E9, U+65E5, U+1F600). " +
 					"bare position also: the same source through a parser.Scanner re-initialised with Init must give ParseSrc's tree. " +
-					"non-trivial = tree with >=2 operators, or any literal check; distinct = distinct (position, minimal source) / (literal source).",
+					"every executed tree (enum, trees) is also run twice more on its parsed tree (vm.RunContext, fresh equal environments): the result of vm.Execute each time, and the tree dumps as after the parse. " +
+					"phase literals also: float numerals of 801..3000 characters (digits and an exponent, dot near the front / in the middle / behind more than 800 digits, 0.000..ddd, zeros in front, no exponent; digit patterns 1000.., 999.., few digits + deciding last digit, 2^53+1 + tail; 3 per case and a fixed list) against the exact value digits x 10^k built with big.Int from the drawn parts and rounded once by big.Rat.Float64: magnitudes 1e-300..1e305 parse to precisely that float64 (every fourth negated), from 1e311 on and integer numerals of more than 800 digits are rejected. " +
+					"phase reeval (a literal denotes what is written EVERY time it is evaluated, the tree keeps spelling its source): per case 40 (thorough 60) programs of 1..3 units in one of " + strconv.Itoa(len(c03RVehicles)-1) + " vehicles that evaluate the same nodes again (straight line, C-style/for-in/condition loops, function called 2..4 times, function value in a loop, closures from one maker, recursion, try/switch/if in a loop, nested loops, module function). A unit draws a literal (integer dec/hex/bin/leading zeros, float, quoted/raw string, true/false/nil; numbers also with the lexer's minus), puts it behind one of " + strconv.Itoa(len(c03RCarriers)) + " carriers that hand its value on (bare, (..), ((..)), both arms of ?:, both sides of ??, list element, map member/key, id() result, func-literal result, *&), takes hold of it in one of " + strconv.Itoa(len(c03RAccess)-2) + " ways (address of the carrier: kept, copied, in a list, in a map, returned by a function that is called again, passed through a host function, pointer to the pointer, used inside a closure, two pointers swapped; value bound by assignment, var, multi-assignment, parameter, list element, map value, function result, address of a call result; address of a drawn expression tree), hands the value to the recorder see(tag, v), and then tries to change it (store, two stores, op-assign, ++/--, host function storing through the pointer by reflection, host functions with *int64/*float64/*string/*bool/*interface{} parameters, script function, closure). Plus 3 (4) tables of 1..300 (1500) literals (sizes around 32/64/100/128/256 favoured): one list, rows, one see() statement each, or a list of the addresses of all literals read and overwritten in two passes; plus a canary of true/false/nil/0/1/2.5/\"s\" and x++/x-- read through a fresh parse at the end of every case. Each program is parsed once and the tree run 2..3 times (vm.RunContext) in fresh equal environments, then its source is run by vm.Execute; the previous program's tree is dumped and run once more after each program. Judged: (value) every record of a tracked literal holds exactly the written Go value (type and bits), table literals parse and evaluate to the written values in order; (tree) the dump with positions and all Literal values bit for bit is after every run what it was after the parse, also after another source was parsed and run; (rerun) later runs of the tree and the fresh parse give the outcome and records of the first run. " +
+					"non-trivial = tree with >=2 operators, or any literal check, or any reeval program; distinct = distinct (position, minimal source) / (literal source) / (program source).",
 				Assumptions: []string{
 					"strconv.FormatFloat(-1) emits digits that denote the float exactly; Go constant arithmetic is the reference for fixed float spellings",
 					"unspecified, kept out or accepted both ways: `<-`, ++/--/op=, escapes before letters/digits (\\x41), `1.`, `.5`, float underflow (1e-400), CR in raw strings, numeric literal directly before `.name` or `...` (`5.x`, `f(1...)`: where the number token ends is not fixed by the statement), top-level `in`/map literal directly after `for`, -2^63 spelled with a minus sign (MinInt64 or rejection)",
@@ -2450,12 +2466,15 @@ func init() {
 					"run-time errors of type-wild trees are not judged, only that both spellings agree",
 					"a parse error is found before the run starts: a script the parser rejects has no tree, so vm.Execute/vm.ExecuteContext run no part of it; the value they hand back next to the error is not judged, nor is the wording or position of the error",
 					"PENDING (c03PendingFix_InvalidUTF8 = true, class not generated): a string literal holding bytes that are no UTF-8 encoding must denote exactly those bytes or be rejected with a *parser.Error; today []rune(src) turns each such byte into U+FFFD (C03-r6-genuine.md #1)",
+					"phase reeval: 'a literal denotes exactly what is written' is read as a statement about the literal node, hence about each of its evaluations and about the tree after any run; that *&x is x, that `p = &e; *p` is the value of e, and that a loop/function body is evaluated once per pass/call are taken from the language. The statements around the literals (for, func, try, module, op-assign, ++) are not C03's subject: a generated program the parser rejects is inconclusive, run errors and panics are not judged (C01), a run without error that records a literal another number of times than the program evaluates it is inconclusive; whether a host function with a typed pointer parameter accepts the script's pointer is not judged (call wrapped in try). -2^63, NaN/Inf and float underflow are not drawn",
+					"long numerals: big.Rat.Float64 rounds the exact value to nearest-even (documented); the band between MaxFloat64 and 1e310 and everything below 1e-300 is not drawn. c03PendingFix_LongNegZero is false, its workload is on: `-0.000..0` beyond 800 characters is -0 like its shorter spellings (was +0; GENUINE.md #1, repaired in /repo as 6ccc49e)",
 					"the statement names decimal, hexadecimal and binary integers and no octal form: a literal of decimal digits only is read as decimal whatever its first digit (leading zeros carry no meaning, as in Go's 010.5 and strconv base 10)",
 				},
 				Phases: []fw.Phase{
 					{Name: "enum", Cases: enumCases, Chunk: 30, Exhaust: true, TimeoutS: 900},
 					{Name: "literals", Cases: lits, Chunk: 25, TimeoutS: 900},
 					{Name: "trees", Cases: trees, Chunk: 25, TimeoutS: 1800},
+					{Name: "reeval", Cases: reeval, Chunk: 20, TimeoutS: 900},
 				},
 			}
 		},
@@ -2467,6 +2486,8 @@ func init() {
 				c03LiteralCase(c, 100)
 			case "trees":
 				c03TreesCase(c)
+			case "reeval":
+				c03ReevalCase(c)
 			}
 		},
 	})
